@@ -1713,6 +1713,50 @@ struct Fill
                 if (d.v[0] != 0)
                     mbad(14, "dynamically_age() right after the evicting insert still aged " + std::to_string(d.v[0]) + " entries");
             }
+            else if (id == 7 && ck == CK::tlru && N == 1)
+            {
+                // a very long TTL (100 days): alive one day before, gone at the deadline
+                const int64_t day = 24LL * 3600 * 1000 * MS;
+                Op            o   = mkins(1, 9000);
+                o.ttl_big         = 100LL * 24 * 3600 * 1000;
+                ap(ad, o);
+                ap(ad, adv(99 * day));
+                if (!ad.apply(mk1(OpK::Find, 1)).v[0])
+                    mbad(5, "an entry written with a TTL of 100 days is gone after 99 days");
+                ap(ad, adv(day));
+                if (ad.apply(mk1(OpK::Find, 1)).v[0])
+                    mbad(4, "an entry written with a TTL of 100 days is still served at its deadline");
+            }
+            else if (id == 8 && ck == CK::lfuda && N <= 3)
+            {
+                // decay with ratios that need more than three fractional bits, on counts >= 16
+                static const float ratios[] = {0.9375f, 0.0625f, 0.6875f};
+                // (this script builds its own caches: one per ratio)
+                for (float rt : ratios)
+                {
+                    Config c2 = cfg;
+                    c2.cap    = 2;
+                    c2.ratio  = rt;
+                    g_now_ns  = t0c;
+                    AD a2(c2);
+                    a2.apply(mkins(1, 9100));
+                    for (int i = 0; i < 15 + N; i++)
+                    {
+                        Op f   = mk1(OpK::Find, 1);
+                        f.peek = 0;
+                        a2.apply(f);
+                    }
+                    g_now_ns += 5 * MS + 1;
+                    a2.apply(simple(OpK::DynAge));
+                    Op f   = mk1(OpK::FindUC, 1);
+                    f.peek = 1;
+                    Result q    = a2.apply(f);
+                    int    cnt  = 16 + N;
+                    int    want = (int)(size_t)(cnt * rt);
+                    if (!q.v[0] || q.v[2] != want)
+                        mbad(14, "use count " + std::to_string(cnt) + " aged with ratio " + std::to_string(rt) + " became " + std::to_string(q.v[2]) + ", expected " + std::to_string(want));
+                }
+            }
             else if (id == 6 && T.has_uc)
             {
                 // many uses of one key
@@ -1743,7 +1787,7 @@ struct Fill
         static const int sizes[] = {1, 2, 3, 7, 33, 64, 65, 100, 127, 128, 129, 130, 257, 513, 700, 1025, 2049};
         for (int N : sizes)
             if (N <= nmax)
-                for (int id = 0; id <= 6; id++)
+                for (int id = 0; id <= 8; id++)
                     mass_script(id, N);
     }
 
